@@ -204,6 +204,11 @@ func pathOK(cert *x509.Certificate, inters, pool []*x509.Certificate, t time.Tim
 // Pool returns the trusted certificates of a case.
 func Pool(c *world.Case) []*x509.Certificate {
 	if c.Embedded {
+		if len(c.EmbeddedRoot) > 0 {
+			if x, err := x509.ParseCertificate(c.EmbeddedRoot); err == nil {
+				return []*x509.Certificate{x}
+			}
+		}
 		return []*x509.Certificate{IntelRoot}
 	}
 	var out []*x509.Certificate
